@@ -59,27 +59,28 @@ type AltInfo struct {
 }
 
 type Obs struct {
-	Panic     bool    `json:"panic"`
-	PanicMsg  S       `json:"panicMsg"`
-	Timeout   bool    `json:"timeout"`
-	Ok        bool    `json:"ok"`
-	ErrType   string  `json:"errType"`
-	ErrOpt    S       `json:"errOpt"`
-	ErrNames  []S     `json:"errNames"`
-	ErrWord   S       `json:"errWord"`
-	ErrList   []S     `json:"errList"` // ErrInvalidChoice: the allowed values as listed in the message
-	ErrMsg    S       `json:"errMsg"`
-	Values    [][]any `json:"values"`
-	IsSet     []bool  `json:"isSet"`
-	Pos       [][][]S `json:"pos"`
-	Retargs   []S     `json:"retargs"`
-	Chain     []int   `json:"chain"`
-	Events    []event `json:"events"`
-	Stdout    int     `json:"stdout"` // 0 nothing, 1 exactly the error text + newline, 2 anything else
-	Stderr    int     `json:"stderr"`
-	Untouched bool    `json:"untouched"`
-	SetupErr  string  `json:"setupErr"`
-	Distinct  int     `json:"distinct"` // number of distinct observations over the repetitions (1 when not repeated)
+	Panic      bool    `json:"panic"`
+	PanicMsg   S       `json:"panicMsg"`
+	Timeout    bool    `json:"timeout"`
+	Ok         bool    `json:"ok"`
+	ErrType    string  `json:"errType"`
+	ErrOpt     S       `json:"errOpt"`
+	ErrNames   []S     `json:"errNames"`
+	ErrWord    S       `json:"errWord"`
+	ErrList    []S     `json:"errList"` // ErrInvalidChoice: the allowed values as listed in the message
+	ErrMsg     S       `json:"errMsg"`
+	Values     [][]any `json:"values"`
+	IsSet      []bool  `json:"isSet"`
+	Pos        [][][]S `json:"pos"`
+	Retargs    []S     `json:"retargs"`
+	Chain      []int   `json:"chain"`
+	Events     []event `json:"events"`
+	Stdout     int     `json:"stdout"` // 0 nothing, 1 exactly the error text + newline, 2 anything else
+	Stderr     int     `json:"stderr"`
+	Untouched  bool    `json:"untouched"`
+	ArgvIntact bool    `json:"argvIntact"` // the slice handed to ParseArgs still holds the same tokens after the call
+	SetupErr   string  `json:"setupErr"`
+	Distinct   int     `json:"distinct"` // number of distinct observations over the repetitions (1 when not repeated)
 }
 
 func poptsOf(names []string) flags.Options {
@@ -431,7 +432,14 @@ func runArgparse(t *Tree, sc *Scenario, argv []S) (obs *Obs) {
 				}
 			}
 		}()
+		given := append([]string{}, args...)
+		obs.ArgvIntact = true
 		rest, err = p.ParseArgs(args)
+		for i := range given {
+			if args[i] != given[i] {
+				obs.ArgvIntact = false
+			}
+		}
 	}()
 	os.Stdout, os.Stderr = so, se
 	if obs.Panic {
